@@ -1,5 +1,5 @@
 (* C08 - every started block is stopped exactly once and nothing outlives the simulation. *)
-From Verif Require Import Values Lifecycle LifecycleProofs.
+From Verif Require Import Values Lifecycle LifecycleProofs LifecycleProofs2.
 From Coq Require Import Permutation.
 Open Scope list_scope.
 
@@ -22,6 +22,28 @@ Theorem C08_nothing_owed_at_the_end : forall p l s,
   ls_astop s = [] /\ ls_abegin s = [] /\ ls_aend s = [] /\ ls_sstop s = [].
 Proof. exact accepted_final_nothing_owed. Qed.
 
+(* "their stop_async awaited": in every accepted log stop_async begins exactly once and ends
+   (finished, failed or cut off by stop_timeout) exactly once for exactly the started blocks with
+   asynchronous clean-up - and for no other block; at every instant an ended one had begun *)
+Theorem C08_stop_async_exactly_once : forall p l, accepted p l = true ->
+  Permutation (sabegins_of l) (filter (is_async p) (started p)) /\
+  Permutation (saends_of l) (filter (is_async p) (started p)) /\
+  NoDup (sabegins_of l) /\ NoDup (saends_of l).
+Proof. exact stop_async_exactly_once. Qed.
+
+Theorem C08_stop_async_end_after_begin : forall p pre post i, accepted p (pre ++ post) = true ->
+  In i (saends_of pre) -> In i (sabegins_of pre).
+Proof. exact stop_async_end_after_begin. Qed.
+
+(* non-vacuity: three blocks, block 1 cleaned up asynchronously *)
+Example C08_async_nonvacuous :
+  let p := {| lp_n := 3%nat; lp_async := [1%nat]; lp_prestart_fail := false; lp_start_fail := None |} in
+  let l := [LStart 0%nat; LStart 1%nat; LStart 2%nat; LStop 1%nat; LSaBegin 1%nat; LSaEnd 1%nat; LStop 2%nat; LStop 0%nat] in
+  accepted p l = true /\ sabegins_of l = [1%nat] /\ saends_of l = [1%nat] /\
+  accepted p [LStart 0%nat; LStart 1%nat; LStart 2%nat; LStop 1%nat; LSaEnd 1%nat; LSaBegin 1%nat; LStop 2%nat; LStop 0%nat] = false /\
+  accepted p [LStart 0%nat; LStart 1%nat; LStart 2%nat; LStop 1%nat; LSaBegin 1%nat; LStop 2%nat; LSaEnd 1%nat; LStop 0%nat] = false.
+Proof. vm_compute. repeat split; reflexivity. Qed.
+
 (* link: acceptance implies the counting and ordering clauses of the monitor that the harness
    evaluates on the observed log *)
 Theorem C08_agree_implies_order : forall p l, accepted p l = true ->
@@ -36,3 +58,5 @@ Print Assumptions C08_stop_exactly_started.
 Print Assumptions C08_async_cleanup_first.
 Print Assumptions C08_nothing_owed_at_the_end.
 Print Assumptions C08_agree_implies_order.
+Print Assumptions C08_stop_async_exactly_once.
+Print Assumptions C08_stop_async_end_after_begin.
